@@ -1411,12 +1411,30 @@ def connOf : AOutcome → Option ConnTok
   | .ok _ _ c => c
   | .err _ => none
 
-/-- `get_k0_conn` returns the cached matrix whenever there is one: the `conn` argument of a later
-`calc_k0(conn=…)` is ignored -/
-theorem conn_cache_counterexample_aux :
+/-- the connection list and the `finalize` flag a call asks `get_k0_conn` for -/
+def reqConn : AOp → Option (Bool × Bool)
+  | .k0 o _ => some (o, true)        -- `self.get_k0_conn(conn=conn)`
+  | .conn o f => some (o, f)
+  | .kT | .fint => some (false, true)
+  | _ => none
+
+def connIdOf (other : Bool) : ConnId := if other then .other else .own
+
+/-- The repaired cache, decided on the former counter-example: a later `calc_k0(conn=B)` uses `B` although the
+matrix of the own list is cached; `get_k0_conn()` after `get_k0_conn(finalize=False)` is finalized; both leave the
+cached matrix of the own list in place. -/
+theorem conn_cache_fixed_aux :
     let a := stdAsm true
-    ((connOf (astep a (afresh a) (.k0 true)).2).map (·.id)) = some .other ∧
-    ((connOf (astep a (astep a (afresh a) (.k0 false)).1 (.k0 true)).2).map (·.id)) = some .own := by
+    let idfin (o : AOutcome) := (connOf o).map (fun t => (t.id, t.fin))
+    idfin (astep a (afresh a) (.k0 true true)).2 = some (.other, true) ∧
+    idfin (astep a (astep a (afresh a) (.k0 false true)).1 (.k0 true true)).2 = some (.other, true) ∧
+    idfin (astep a (arunOps a (afresh a) [.k0 false true, .k0 true true]) (.k0 false true)).2 = some (.own, true) ∧
+    idfin (astep a (afresh a) (.conn false false)).2 = some (.own, false) ∧
+    idfin (astep a (astep a (afresh a) (.conn false false)).1 (.conn false true)).2 = some (.own, true) ∧
+    idfin (astep a (astep a (afresh a) (.conn false false)).1 .kT).2 = some (.own, true) ∧
+    (arunOps a (afresh a) [.conn false false, .conn true true, .conn true false, .k0 true false]).cache = none ∧
+    ((arunOps a (afresh a) [.k0 false true, .conn true true, .conn false false]).cache.map (fun t => (t.id, t.fin))) =
+      some (.own, true) := by
   decide
 
 /-- `get_k0_conn()` before any `calc_k0` builds the penalty constants from laminates WITHOUT offset, caches the
@@ -1424,26 +1442,159 @@ matrix, and every later `calc_k0` / `calc_kT` adds that cached matrix -/
 theorem conn_order_counterexample_aux :
     let a := stdAsm false
     let lamOf (o : AOutcome) := (connOf o).map (·.t1)
-    lamOf (astep a (afresh a) (.k0 false)).2 = some [([.ktkr], [.model .plate, .lam (.built .rep .rep .own)])] ∧
-    lamOf (astep a (astep a (afresh a) (.conn false)).1 (.k0 false)).2 =
+    lamOf (astep a (afresh a) (.k0 false true)).2 = some [([.ktkr], [.model .plate, .lam (.built .rep .rep .own)])] ∧
+    lamOf (astep a (astep a (afresh a) (.conn false true)).1 (.k0 false true)).2 =
       some [([.ktkr], [.model .plate, .lam (.built .rep .rep .zero)])] ∧
     -- no difference for a zero offset
-    (astep (stdAsm true) (afresh (stdAsm true)) (.k0 false)).2 =
-      (astep (stdAsm true) (astep (stdAsm true) (afresh (stdAsm true)) (.conn false)).1 (.k0 false)).2 := by
+    (astep (stdAsm true) (afresh (stdAsm true)) (.k0 false true)).2 =
+      (astep (stdAsm true) (astep (stdAsm true) (afresh (stdAsm true)) (.conn false true)).1 (.k0 false true)).2 := by
+  decide
+
+/-- with a non-zero laminate offset an earlier `conn=` argument still shows, through the laminate only: after
+`get_k0_conn()` (cached, laminates without offset) `calc_kT` adds another matrix than after `get_k0_conn(conn=B)`
+(not cached; `calc_kT` rebuilds the laminates with offset first) -/
+theorem conn_args_offset_counterexample_aux :
+    let a := stdAsm false
+    let lamOf (o : AOutcome) := (connOf o).map (·.t1)
+    let idfin (o : AOutcome) := (connOf o).map (fun t => (t.id, t.fin))
+    lamOf (astep a (astep a (afresh a) (.conn false true)).1 .kT).2 =
+      some [([.ktkr], [.model .plate, .lam (.built .rep .rep .zero)])] ∧
+    lamOf (astep a (astep a (afresh a) (.conn true true)).1 .kT).2 =
+      some [([.ktkr], [.model .plate, .lam (.built .rep .rep .own)])] ∧
+    idfin (astep a (astep a (afresh a) (.conn false true)).1 .kT).2 = some (.own, true) ∧
+    idfin (astep a (astep a (afresh a) (.conn true true)).1 .kT).2 = some (.own, true) := by
   decide
 
 def aallOps : List AOp :=
-  [.size, .k0 false, .k0 true, .kG0, .kG, .kM, .kT, .fint, .fext, .conn false, .conn true, .uvw, .strain, .stress]
+  [.size, .k0 false true, .k0 true true, .k0 false false, .k0 true false, .kG0, .kG, .kM, .kT, .fint, .fext,
+   .conn false true, .conn true true, .conn false false, .conn true false, .uvw, .strain, .stress]
+
+theorem aallOps_complete (op : AOp) : op ∈ aallOps := by
+  cases op <;> first | decide | (rename_i o f; cases o <;> cases f <;> decide)
 
 theorem asm_fresh_aux (oz : Bool) :
     let a := stdAsm oz
     aallOps.filter (fun op => (astep a (afresh a) op).2.isOk) =
-      [.size, .k0 false, .k0 true, .kG0, .kT, .fext, .conn false, .conn true] ∧
-    aallOps.filter (fun op => (astep a (astep a (afresh a) (.k0 false)).1 op).2.isOk) = aallOps := by
+      [.size, .k0 false true, .k0 true true, .k0 false false, .k0 true false, .kG0, .kT, .fext,
+       .conn false true, .conn true true, .conn false false, .conn true false] ∧
+    aallOps.filter (fun op => (astep a (astep a (afresh a) (.k0 false true)).1 op).2.isOk) = aallOps := by
   cases oz <;> decide
 
 
-/-! ### assemblies with zero laminate offsets and a single connection list: ∀ histories -/
+/-! ### the cache holds the finalized matrix of the own list, every call gets what it asked for: ∀ definitions, ∀ histories -/
+
+/-- `self.k0_conn` is `None` or a finalized matrix of the assembly's own connection list -/
+def CacheOwn (s : AState) : Prop := ∀ t, s.cache = some t → t.id = .own ∧ t.fin = true
+
+theorem both_cache (a : ADef) (s : AState) (p : List Instr) : (both a s p).1.cache = s.cache := by
+  simp only [both]
+  split <;> rfl
+
+theorem getConn_req (a : ADef) (s : AState) (o f : Bool) (hi : CacheOwn s) :
+    CacheOwn (getConn a s o f).1 ∧
+      ∀ t, (getConn a s o f).2 = .ok t → t.id = connIdOf o ∧ t.fin = f := by
+  have hb : CacheOwn (both a s (prog .ktkr)).1 := by
+    intro t ht; rw [both_cache] at ht; exact hi t ht
+  simp only [getConn]
+  split
+  · exact ⟨hi, by simp⟩
+  · cases o <;> cases f <;> simp only [useCache, Bool.and_true, Bool.and_false, Bool.not_true, Bool.not_false,
+      Bool.false_eq_true, if_false, if_true]
+    -- own list, finalize=False / other list: never cached
+    case false.false | true.false | true.true =>
+      split
+      · exact ⟨hb, by simp⟩
+      · exact ⟨hb, by intro t ht; simp at ht; simp [← ht, connIdOf]⟩
+    -- own list, finalize=True: the cached entry
+    case false.true =>
+      cases hc : s.cache with
+      | some t =>
+        simp only []
+        refine ⟨hi, ?_⟩
+        intro t' ht
+        simp at ht
+        have := hi t hc
+        simpa [← ht, connIdOf] using this
+      | none =>
+        simp only []
+        split
+        · exact ⟨hb, by simp⟩
+        · refine ⟨?_, by intro t ht; simp at ht; simp [← ht, connIdOf]⟩
+          intro t ht
+          simp at ht
+          simp [← ht]
+
+theorem astep_req (a : ADef) (s : AState) (hi : CacheOwn s) (op : AOp) :
+    CacheOwn (astep a s op).1 ∧
+      ∀ t, connOf (astep a s op).2 = some t → ∃ o f, reqConn op = some (o, f) ∧ t.id = connIdOf o ∧ t.fin = f := by
+  have hb : ∀ p, CacheOwn (both a s p).1 := by
+    intro p t ht; rw [both_cache] at ht; exact hi t ht
+  cases op with
+  | size => exact ⟨hi, by simp [astep, connOf]⟩
+  | conn o f =>
+    have hc := getConn_req a s o f hi
+    simp only [astep]
+    refine ⟨hc.1, ?_⟩
+    cases hg : (getConn a s o f).2 with
+    | error e => simp [connOf]
+    | ok t => intro t' ht; simp [connOf] at ht; exact ⟨o, f, rfl, ht ▸ hc.2 t hg⟩
+  | k0 o f =>
+    simp only [astep]
+    cases he : (both a s (panelProg (.k0 o f))).2.1 with
+    | some e => exact ⟨hb _, by simp [connOf]⟩
+    | none =>
+      simp only []
+      have hc := getConn_req a _ o true (hb (panelProg (.k0 o f)))
+      refine ⟨hc.1, ?_⟩
+      cases hg : (getConn a (both a s (panelProg (.k0 o f))).1 o true).2 with
+      | error e => simp [connOf]
+      | ok t => intro t' ht; simp [connOf] at ht; exact ⟨o, true, rfl, ht ▸ hc.2 t hg⟩
+  | kT =>
+    simp only [astep]
+    cases he : (both a s (panelProg .kT)).2.1 with
+    | some e => exact ⟨hb _, by simp [connOf]⟩
+    | none =>
+      simp only []
+      have hc := getConn_req a _ false true (hb (panelProg .kT))
+      refine ⟨hc.1, ?_⟩
+      cases hg : (getConn a (both a s (panelProg .kT)).1 false true).2 with
+      | error e => simp [connOf]
+      | ok t => intro t' ht; simp [connOf] at ht; exact ⟨false, true, rfl, ht ▸ hc.2 t hg⟩
+  | fint =>
+    simp only [astep]
+    cases he : (both a s (panelProg .fint)).2.1 with
+    | some e => exact ⟨hb _, by simp [connOf]⟩
+    | none =>
+      simp only []
+      have hc := getConn_req a _ false true (hb (panelProg .fint))
+      refine ⟨hc.1, ?_⟩
+      cases hg : (getConn a (both a s (panelProg .fint)).1 false true).2 with
+      | error e => simp [connOf]
+      | ok t => intro t' ht; simp [connOf] at ht; exact ⟨false, true, rfl, ht ▸ hc.2 t hg⟩
+  | kG0 | kG | kM | fext | uvw | strain | stress =>
+    simp only [astep]
+    split
+    · exact ⟨hb _, by simp [connOf]⟩
+    · exact ⟨hb _, by simp [connOf]⟩
+
+theorem arunOps_cacheOwn (a : ADef) : ∀ (ops : List AOp) (s : AState), CacheOwn s → CacheOwn (arunOps a s ops) := by
+  intro ops
+  induction ops with
+  | nil => intro s hi; exact hi
+  | cons op ops ih =>
+    intro s hi
+    simp only [arunOps]
+    exact ih _ (astep_req a s hi op).1
+
+theorem cacheOwn_fresh (a : ADef) : CacheOwn (afresh a) := by
+  intro t ht; simp [afresh] at ht
+
+theorem asm_conn_matches_request_aux (a : ADef) (h : List AOp) (op : AOp) (t : ConnTok)
+    (ht : connOf (astep a (arunOps a (afresh a) h) op).2 = some t) :
+    ∃ o f, reqConn op = some (o, f) ∧ t.id = connIdOf o ∧ t.fin = f :=
+  (astep_req a _ (arunOps_cacheOwn a h _ (cacheOwn_fresh a)) op).2 t ht
+
+/-! ### assemblies with zero laminate offsets: ∀ histories, ∀ `conn=` / `finalize=` arguments -/
 
 /-- canonical result of a Panel program -/
 def canonProg (d : Def) (p : List Instr) : List Tok := result (crun d p (Work.start, Regs.empty)).1
@@ -1463,12 +1614,15 @@ theorem pstep_aux (d : Def) (p : List Instr) (hg : guarded false p = true) (hr :
 theorem panelProg_static (op : AOp) :
     guarded false (panelProg op) = true ∧ regOK [] (panelProg op) = true ∧
     (panelProg op).all (fun i => !noOffset i) = true := by
-  cases op <;> first | (exact ⟨rfl, rfl, rfl⟩) | (rename_i b; cases b <;> exact ⟨rfl, rfl, rfl⟩)
+  cases op <;> exact ⟨rfl, rfl, rfl⟩
 
-def canonConn (a : ADef) : ConnTok := ⟨.own, canonProg a.d1 (prog .ktkr), canonProg a.d2 (prog .ktkr)⟩
+/-- canonical connection matrix of a request: the list asked for, the `finalize` flag asked for, the canonical
+`calc_kt_kr` tokens of the two panels -/
+def canonConn (a : ADef) (other fin : Bool) : ConnTok :=
+  ⟨connIdOf other, fin, canonProg a.d1 (prog .ktkr), canonProg a.d2 (prog .ktkr)⟩
 
 def AInv (a : ADef) (s : AState) : Prop :=
-  Inv a.d1 s.p1.h ∧ Inv a.d2 s.p2.h ∧ (s.cache = none ∨ s.cache = some (canonConn a))
+  Inv a.d1 s.p1.h ∧ Inv a.d2 s.p2.h ∧ (s.cache = none ∨ s.cache = some (canonConn a false true))
 
 theorem both_aux (a : ADef) (p : List Instr) (hg : guarded false p = true) (hr : regOK [] p = true)
     (ho : (a.d1.offsetZero = true ∧ a.d2.offsetZero = true) ∨ p.all (fun i => !noOffset i) = true)
@@ -1496,157 +1650,161 @@ theorem both_aux (a : ADef) (p : List Instr) (hg : guarded false p = true) (hr :
     exact ⟨h1.2 he, h2.2 hn⟩
 
 theorem getConn_aux (a : ADef) (hz : a.d1.offsetZero = true ∧ a.d2.offsetZero = true) (s : AState)
-    (hi : AInv a s) : AInv a (getConn a s false).1 ∧ ∀ t, (getConn a s false).2 = .ok t → t = canonConn a := by
+    (hi : AInv a s) (o f : Bool) :
+    AInv a (getConn a s o f).1 ∧ ∀ t, (getConn a s o f).2 = .ok t → t = canonConn a o f := by
+  have hb := both_aux a (prog .ktkr) (prog_guarded .ktkr) (prog_regOK .ktkr) (Or.inl hz) s hi
   simp only [getConn]
   split
   · exact ⟨hi, by simp⟩
-  · cases hc : s.cache with
-    | some t =>
-      simp only []
-      refine ⟨hi, ?_⟩
-      intro t' ht
-      simp at ht
-      rcases hi.2.2 with h | h
-      · rw [hc] at h; simp at h
-      · rw [hc] at h; simp at h; rw [← ht, h]
-    | none =>
-      simp only []
-      have hb := both_aux a (prog .ktkr) (prog_guarded .ktkr) (prog_regOK .ktkr) (Or.inl hz) s hi
+  · cases o <;> cases f <;> simp only [useCache, Bool.and_true, Bool.and_false, Bool.not_true, Bool.not_false,
+      Bool.false_eq_true, if_false, if_true]
+    case false.false | true.false | true.true =>
       cases he : (both a s (prog .ktkr)).2.1 with
       | some e => exact ⟨hb.1, by simp⟩
       | none =>
         simp only []
         obtain ⟨r1, r2⟩ := hb.2 he
-        refine ⟨⟨hb.1.1, hb.1.2.1, Or.inr ?_⟩, ?_⟩
-        · simp [canonConn, r1, r2]
-        · intro t ht
-          simp at ht
-          simp [← ht, canonConn, r1, r2]
+        refine ⟨hb.1, ?_⟩
+        intro t ht
+        simp at ht
+        simp [← ht, canonConn, connIdOf, r1, r2]
+    case false.true =>
+      cases hc : s.cache with
+      | some t =>
+        simp only []
+        refine ⟨hi, ?_⟩
+        intro t' ht
+        simp at ht
+        rcases hi.2.2 with h | h
+        · rw [hc] at h; simp at h
+        · rw [hc] at h; simp at h; rw [← ht, h]
+      | none =>
+        simp only []
+        cases he : (both a s (prog .ktkr)).2.1 with
+        | some e => exact ⟨hb.1, by simp⟩
+        | none =>
+          simp only []
+          obtain ⟨r1, r2⟩ := hb.2 he
+          refine ⟨⟨hb.1.1, hb.1.2.1, Or.inr ?_⟩, ?_⟩
+          · simp [canonConn, connIdOf, r1, r2]
+          · intro t ht
+            simp at ht
+            simp [← ht, canonConn, connIdOf, r1, r2]
 
-/-- calls that do not pass a foreign connection list -/
-def ownConn : AOp → Bool
-  | .k0 true | .conn true => false
-  | _ => true
-
-/-- canonical result of an assembly call -/
-def canonA (a : ADef) : AOp → AOutcome
+/-- canonical result of an assembly call: a function of the definition and of the call (with ITS `conn=` /
+`finalize=` arguments) only -/
+def canonA (a : ADef) (op : AOp) : AOutcome :=
+  match op with
   | .size => .ok [] [] none
-  | .conn _ => .ok [] [] (some (canonConn a))
-  | .k0 o => .ok (canonProg a.d1 (panelProg (.k0 o))) (canonProg a.d2 (panelProg (.k0 o))) (some (canonConn a))
-  | .kT => .ok (canonProg a.d1 (panelProg .kT)) (canonProg a.d2 (panelProg .kT)) (some (canonConn a))
-  | .fint => .ok (canonProg a.d1 (panelProg .fint)) (canonProg a.d2 (panelProg .fint)) (some (canonConn a))
-  | op => .ok (canonProg a.d1 (panelProg op)) (canonProg a.d2 (panelProg op)) none
+  | .conn o f => .ok [] [] (some (canonConn a o f))
+  | op => .ok (canonProg a.d1 (panelProg op)) (canonProg a.d2 (panelProg op))
+      ((reqConn op).map (fun r => canonConn a r.1 r.2))
 
 theorem astep_aux (a : ADef) (hz : a.d1.offsetZero = true ∧ a.d2.offsetZero = true) (s : AState) (hi : AInv a s)
-    (op : AOp) (ho : ownConn op = true) :
+    (op : AOp) :
     AInv a (astep a s op).1 ∧ ((astep a s op).2.isOk = true → (astep a s op).2 = canonA a op) := by
   have hst := panelProg_static op
   have hb := both_aux a (panelProg op) hst.1 hst.2.1 (Or.inr hst.2.2) s hi
   cases op with
   | size => exact ⟨hi, fun _ => rfl⟩
-  | conn o =>
-    cases o with
-    | true => simp [ownConn] at ho
-    | false =>
-      have hc := getConn_aux a hz s hi
-      simp only [astep]
+  | conn o f =>
+    have hc := getConn_aux a hz s hi o f
+    simp only [astep]
+    refine ⟨hc.1, ?_⟩
+    cases hg : (getConn a s o f).2 with
+    | error e => simp [AOutcome.isOk]
+    | ok t => intro _; simp [canonA, hc.2 t hg]
+  | k0 o f =>
+    simp only [astep]
+    cases he : (both a s (panelProg (.k0 o f))).2.1 with
+    | some e => exact ⟨hb.1, by simp [AOutcome.isOk]⟩
+    | none =>
+      simp only []
+      have hc := getConn_aux a hz _ hb.1 o true
       refine ⟨hc.1, ?_⟩
-      cases hg : (getConn a s false).2 with
+      cases hg : (getConn a (both a s (panelProg (.k0 o f))).1 o true).2 with
       | error e => simp [AOutcome.isOk]
-      | ok t => intro _; simp [canonA, hc.2 t hg]
-  | k0 o =>
-    cases o with
-    | true => simp [ownConn] at ho
-    | false =>
-      simp only [astep]
-      cases he : (both a s (panelProg (.k0 false))).2.1 with
-      | some e => exact ⟨hb.1, by simp [AOutcome.isOk]⟩
-      | none =>
-        simp only []
-        have hc := getConn_aux a hz _ hb.1
-        refine ⟨hc.1, ?_⟩
-        cases hg : (getConn a (both a s (panelProg (.k0 false))).1 false).2 with
-        | error e => simp [AOutcome.isOk]
-        | ok t => intro _; simp [canonA, hc.2 t hg, (hb.2 he).1, (hb.2 he).2]
+      | ok t => intro _; simp [canonA, reqConn, hc.2 t hg, (hb.2 he).1, (hb.2 he).2]
   | kT =>
     simp only [astep]
     cases he : (both a s (panelProg .kT)).2.1 with
     | some e => exact ⟨hb.1, by simp [AOutcome.isOk]⟩
     | none =>
       simp only []
-      have hc := getConn_aux a hz _ hb.1
+      have hc := getConn_aux a hz _ hb.1 false true
       refine ⟨hc.1, ?_⟩
-      cases hg : (getConn a (both a s (panelProg .kT)).1 false).2 with
+      cases hg : (getConn a (both a s (panelProg .kT)).1 false true).2 with
       | error e => simp [AOutcome.isOk]
-      | ok t => intro _; simp [canonA, hc.2 t hg, (hb.2 he).1, (hb.2 he).2]
+      | ok t => intro _; simp [canonA, reqConn, hc.2 t hg, (hb.2 he).1, (hb.2 he).2]
   | fint =>
     simp only [astep]
     cases he : (both a s (panelProg .fint)).2.1 with
     | some e => exact ⟨hb.1, by simp [AOutcome.isOk]⟩
     | none =>
       simp only []
-      have hc := getConn_aux a hz _ hb.1
+      have hc := getConn_aux a hz _ hb.1 false true
       refine ⟨hc.1, ?_⟩
-      cases hg : (getConn a (both a s (panelProg .fint)).1 false).2 with
+      cases hg : (getConn a (both a s (panelProg .fint)).1 false true).2 with
       | error e => simp [AOutcome.isOk]
-      | ok t => intro _; simp [canonA, hc.2 t hg, (hb.2 he).1, (hb.2 he).2]
+      | ok t => intro _; simp [canonA, reqConn, hc.2 t hg, (hb.2 he).1, (hb.2 he).2]
   | kG0 =>
     simp only [astep]
     cases he : (both a s (panelProg .kG0)).2.1 with
     | some e => exact ⟨hb.1, by simp [AOutcome.isOk]⟩
-    | none => exact ⟨hb.1, fun _ => by simp [canonA, (hb.2 he).1, (hb.2 he).2]⟩
+    | none => exact ⟨hb.1, fun _ => by simp [canonA, reqConn, (hb.2 he).1, (hb.2 he).2]⟩
   | kG =>
     simp only [astep]
     cases he : (both a s (panelProg .kG)).2.1 with
     | some e => exact ⟨hb.1, by simp [AOutcome.isOk]⟩
-    | none => exact ⟨hb.1, fun _ => by simp [canonA, (hb.2 he).1, (hb.2 he).2]⟩
+    | none => exact ⟨hb.1, fun _ => by simp [canonA, reqConn, (hb.2 he).1, (hb.2 he).2]⟩
   | kM =>
     simp only [astep]
     cases he : (both a s (panelProg .kM)).2.1 with
     | some e => exact ⟨hb.1, by simp [AOutcome.isOk]⟩
-    | none => exact ⟨hb.1, fun _ => by simp [canonA, (hb.2 he).1, (hb.2 he).2]⟩
+    | none => exact ⟨hb.1, fun _ => by simp [canonA, reqConn, (hb.2 he).1, (hb.2 he).2]⟩
   | fext =>
     simp only [astep]
     cases he : (both a s (panelProg .fext)).2.1 with
     | some e => exact ⟨hb.1, by simp [AOutcome.isOk]⟩
-    | none => exact ⟨hb.1, fun _ => by simp [canonA, (hb.2 he).1, (hb.2 he).2]⟩
+    | none => exact ⟨hb.1, fun _ => by simp [canonA, reqConn, (hb.2 he).1, (hb.2 he).2]⟩
   | uvw =>
     simp only [astep]
     cases he : (both a s (panelProg .uvw)).2.1 with
     | some e => exact ⟨hb.1, by simp [AOutcome.isOk]⟩
-    | none => exact ⟨hb.1, fun _ => by simp [canonA, (hb.2 he).1, (hb.2 he).2]⟩
+    | none => exact ⟨hb.1, fun _ => by simp [canonA, reqConn, (hb.2 he).1, (hb.2 he).2]⟩
   | strain =>
     simp only [astep]
     cases he : (both a s (panelProg .strain)).2.1 with
     | some e => exact ⟨hb.1, by simp [AOutcome.isOk]⟩
-    | none => exact ⟨hb.1, fun _ => by simp [canonA, (hb.2 he).1, (hb.2 he).2]⟩
+    | none => exact ⟨hb.1, fun _ => by simp [canonA, reqConn, (hb.2 he).1, (hb.2 he).2]⟩
   | stress =>
     simp only [astep]
     cases he : (both a s (panelProg .stress)).2.1 with
     | some e => exact ⟨hb.1, by simp [AOutcome.isOk]⟩
-    | none => exact ⟨hb.1, fun _ => by simp [canonA, (hb.2 he).1, (hb.2 he).2]⟩
+    | none => exact ⟨hb.1, fun _ => by simp [canonA, reqConn, (hb.2 he).1, (hb.2 he).2]⟩
 
 theorem arunOps_inv (a : ADef) (hz : a.d1.offsetZero = true ∧ a.d2.offsetZero = true) :
-    ∀ (ops : List AOp) (s : AState), (∀ op ∈ ops, ownConn op = true) → AInv a s → AInv a (arunOps a s ops) := by
+    ∀ (ops : List AOp) (s : AState), AInv a s → AInv a (arunOps a s ops) := by
   intro ops
   induction ops with
-  | nil => intro s _ hi; exact hi
+  | nil => intro s hi; exact hi
   | cons op ops ih =>
-    intro s ho hi
+    intro s hi
     simp only [arunOps]
-    exact ih _ (fun o h => ho o (List.mem_cons_of_mem _ h))
-      (astep_aux a hz s hi op (ho op (List.mem_cons_self ..))).1
+    exact ih _ (astep_aux a hz s hi op).1
 
 theorem ainv_fresh (a : ADef) : AInv a (afresh a) := ⟨inv_init a.d1, inv_init a.d2, Or.inl rfl⟩
 
+theorem asm_result_canonical_aux (a : ADef) (hz : a.d1.offsetZero = true ∧ a.d2.offsetZero = true)
+    (h : List AOp) (op : AOp) (k : (astep a (arunOps a (afresh a) h) op).2.isOk = true) :
+    (astep a (arunOps a (afresh a) h) op).2 = canonA a op :=
+  (astep_aux a hz _ (arunOps_inv a hz h _ (ainv_fresh a)) op).2 k
+
 theorem asm_history_independent_aux (a : ADef) (hz : a.d1.offsetZero = true ∧ a.d2.offsetZero = true)
-    (h1 h2 : List AOp) (op : AOp) (o1 : ∀ o ∈ h1, ownConn o = true) (o2 : ∀ o ∈ h2, ownConn o = true)
-    (oo : ownConn op = true) (k1 : (astep a (arunOps a (afresh a) h1) op).2.isOk = true)
+    (h1 h2 : List AOp) (op : AOp) (k1 : (astep a (arunOps a (afresh a) h1) op).2.isOk = true)
     (k2 : (astep a (arunOps a (afresh a) h2) op).2.isOk = true) :
     (astep a (arunOps a (afresh a) h1) op).2 = (astep a (arunOps a (afresh a) h2) op).2 := by
-  have i1 := arunOps_inv a hz h1 _ o1 (ainv_fresh a)
-  have i2 := arunOps_inv a hz h2 _ o2 (ainv_fresh a)
-  rw [(astep_aux a hz _ i1 op oo).2 k1, (astep_aux a hz _ i2 op oo).2 k2]
+  rw [asm_result_canonical_aux a hz h1 op k1, asm_result_canonical_aux a hz h2 op k2]
 
 end Compmech.Lifecycle.Asm
 
